@@ -109,7 +109,7 @@ func init() {
 		if err != nil {
 			return err
 		}
-		ex, err := mustFunc(f, "commithook", "Execute")
+		ex, err := pullerMustFunc(f, "commithook", "Execute")
 		if err != nil {
 			return err
 		}
@@ -122,7 +122,7 @@ func init() {
 		}
 		c.defStringList("executeNextHeadGuards", g)
 		c.defStringList("executeNotPrimaryGuards", c.guardsReturning(chf, ex.Body, "nil"))
-		ar, err := mustFunc(f, "commithook", "attemptReplicate")
+		ar, err := pullerMustFunc(f, "commithook", "attemptReplicate")
 		if err != nil {
 			return err
 		}
@@ -144,28 +144,28 @@ func init() {
 			}
 		}
 		c.defStringList("lastPushedWriters", lp)
-		icu, err := mustFunc(f, "commithook", "isCaughtUp")
+		icu, err := pullerMustFunc(f, "commithook", "isCaughtUp")
 		if err != nil {
 			return err
 		}
 		c.defString("isCaughtUpBody", strings.Join(strings.Fields(c.src(chf, icu.Body)), " "))
-		sr, err := mustFunc(f, "commithook", "setRole")
+		sr, err := pullerMustFunc(f, "commithook", "setRole")
 		if err != nil {
 			return err
 		}
 		c.defStringList("setRoleEvents", c.orderedEvents(chf, sr.Body, []string{"h.mu.Lock", "h.cancelReplicate", "h.cond.Signal"}, []string{"h.nextHead", "h.lastPushedHead", "h.role"}))
-		shr, err := mustFunc(f, "commithook", "shouldReplicate")
+		shr, err := pullerMustFunc(f, "commithook", "shouldReplicate")
 		if err != nil {
 			return err
 		}
 		c.defStringList("shouldReplicateCalls", callsWithPrefix(shr.Body, "h.isCaughtUp"))
-		pni, err := mustFunc(f, "commithook", "primaryNeedsInit")
+		pni, err := pullerMustFunc(f, "commithook", "primaryNeedsInit")
 		if err != nil {
 			return err
 		}
 		c.defString("primaryNeedsInitBody", strings.Join(strings.Fields(c.src(chf, pni.Body)), " "))
 		for _, nm := range []string{"ExecuteForWorkingSets", "ExecuteForReplicaWrite"} {
-			fd, err := mustFunc(f, "commithook", nm)
+			fd, err := pullerMustFunc(f, "commithook", nm)
 			if err != nil {
 				return err
 			}
@@ -177,12 +177,12 @@ func init() {
 		if err != nil {
 			return err
 		}
-		ba, err := mustFunc(pf, "ProgressNotifier", "BeginAttempt")
+		ba, err := pullerMustFunc(pf, "ProgressNotifier", "BeginAttempt")
 		if err != nil {
 			return err
 		}
 		c.defString("beginAttemptBody", strings.Join(strings.Fields(c.src(pnf, ba.Body)), " "))
-		rf, err := mustFunc(pf, "ProgressNotifier", "RecordFailure")
+		rf, err := pullerMustFunc(pf, "ProgressNotifier", "RecordFailure")
 		if err != nil {
 			return err
 		}
@@ -193,13 +193,13 @@ func init() {
 		if err != nil {
 			return err
 		}
-		gt, err := mustFunc(cf, "Controller", "gracefulTransitionToStandby")
+		gt, err := pullerMustFunc(cf, "Controller", "gracefulTransitionToStandby")
 		if err != nil {
 			return err
 		}
 		c.defStringList("gracefulCalls", callsWithPrefix(gt.Body, "c.setProviderIsStandby", "c.killRunningQueries", "c.waitForHooksToReplicate"))
 		c.defStringList("gracefulNotCaughtUpGuards", c.guardsReturning(ctf, gt.Body, "could not replicate databases to standby in a timely manner"))
-		sre, err := mustFunc(cf, "Controller", "setRoleAndEpoch")
+		sre, err := pullerMustFunc(cf, "Controller", "setRoleAndEpoch")
 		if err != nil {
 			return err
 		}
@@ -210,12 +210,12 @@ func init() {
 		if err != nil {
 			return err
 		}
-		pd, err := mustFunc(hf, "", "pushDataset")
+		pd, err := pullerMustFunc(hf, "", "pushDataset")
 		if err != nil {
 			return err
 		}
 		c.defStringList("pushDatasetCalls", callsWithPrefix(pd.Body, "ds.MaybeHeadAddr", "destDB.PullChunks", "destDB.SetHead", "destDB.FastForward"))
-		pe, err := mustFunc(hf, "PushOnWriteHook", "Execute")
+		pe, err := pullerMustFunc(hf, "PushOnWriteHook", "Execute")
 		if err != nil {
 			return err
 		}
@@ -234,7 +234,7 @@ func init() {
 			})
 			return out
 		}())
-		fd, err := mustFunc(hf, "PushOnWriteHook", "ExecuteForWorkingSets")
+		fd, err := pullerMustFunc(hf, "PushOnWriteHook", "ExecuteForWorkingSets")
 		if err != nil {
 			return err
 		}
@@ -246,7 +246,7 @@ func init() {
 			return err
 		}
 		for _, nm := range []string{"CommitWithWorkingSet", "Commit", "SetHead", "FastForward"} {
-			fd, err := mustFunc(hd, "hooksDatabase", nm)
+			fd, err := pullerMustFunc(hd, "hooksDatabase", nm)
 			if err != nil {
 				return err
 			}
@@ -270,7 +270,7 @@ func init() {
 		if err != nil {
 			return err
 		}
-		dc, err := mustFunc(tf, "DoltTransaction", "doCommit")
+		dc, err := pullerMustFunc(tf, "DoltTransaction", "doCommit")
 		if err != nil {
 			return err
 		}
@@ -294,7 +294,7 @@ func init() {
 		if err != nil {
 			return err
 		}
-		pfr, err := mustFunc(rr, "ReadReplicaDatabase", "PullFromRemote")
+		pfr, err := pullerMustFunc(rr, "ReadReplicaDatabase", "PullFromRemote")
 		if err != nil {
 			return err
 		}
